@@ -46,6 +46,14 @@ CHECKS.update({
    "Per input: all-ascending, all-descending and every execution with <= 1 (thorough 2) deviations (all n! permutations per occurrence for n<=4) must return deep-equal results; plain build: 3 repetitions, every subset of rings reversed, reverse flag relation; conformance: instrumented outcomes re-observed on the un-instrumented build.",
    "Trusted: instrumenter rewrites (validated per run by the digest comparison), maps iterated inside third-party packages are not controlled.", "3/C07"),
 })
+CHECKS.update({
+ "C10": ("pipemc", "stateless model checking of the real processing package (mechanically instrumented: every channel operation, go statement, WaitGroup operation and map iteration is a scheduling / choice point owned by a controlled scheduler) for every feature stream of a bounded alphabet x outcome table, against a sequential reference of what each target must receive",
+   "All streams up to length 3 (1 target), 2 (2-3 targets) over non-polygon / polygon / 1-2 part multipolygon with every kept/dropped/split outcome vector; per stream the default schedule and every schedule with <= 1 deviation (thorough: <= 2 preemptions) incl. all map-iteration orders of the target maps; received features compared exactly (identity, attributes, geometry, order) at hand-over and again at the target's final write.",
+   "Trusted: scheduler's channel/wait-group model (mismatch = harness error), instrumenter, fake source/targets; Polygon and 1-element MultiPolygon are identified.", "3/C10"),
+ "C11": ("pipemc", "stateless model checking of the real (instrumented) processing package under a controlled scheduler: all schedules with state-hash pruning for the small configurations, iterative preemption / deviation bounding for the larger ones; plus a separate free-running -race pass of the same harness bodies against the un-instrumented package",
+   "Reader, snapper, router and N writer goroutines (N=1..5) with fake targets whose handling and final write are separately scheduled steps: no deadlock, no panic (send on closed, double close, negative wait group), no early return (every target finished its final write when ProcessFeatures returns; the caller's table switch is not observed), no leak, no drop/dup/reorder. One outcome per scenario expected and reported.",
+   "Trusted: scheduler model; memory-model effects only through the sampled free-running -race pass (1800 runs, GOMAXPROCS 1/2/16, streams up to 200), reported separately in the evidence.", "3/C11"),
+})
 PENDING = {}
 ALL = ["C01","C02","C03","C04","C18","C05","C06","C07","C08","C09","C10","C11","C12","C13","C14","C15","C16","C17"]
 
@@ -78,6 +86,7 @@ def main():
         },
         "engines": [
             {"name": "snapmc", "path": "engine/cmd/snapmc", "serves_properties": ["C01","C02","C03","C04","C05","C06","C07","C08","C09","C18"], "kind_free_text": "process-sharded DFS over lattice inputs executing the real snap/pointindex code against exact reference models (engine/ref, engine/lat, engine/grid)"},
+            {"name": "pipemc", "path": "engine/cmd/pipemc", "serves_properties": ["C10","C11"], "kind_free_text": "controlled scheduler (engine/sched) + stateless DFS with state-hash pruning and deviation bounding over the instrumented real processing package; instrumenter in /verif/instr, runtime injected by go build -overlay"},
             {"name": "tmsmc", "path": "engine/cmd/tmsmc", "serves_properties": ["C14","C15","C16"], "kind_free_text": "exhaustive enumeration / explicit-state BFS over tile matrix set documents and their mutations on the real tms20, pointindex and main code"},
             {"name": "bitmc", "path": "engine/cmd/bitmc", "serves_properties": ["C17"], "kind_free_text": "exhaustive bit-pattern enumeration on the real code vs bit-loop reference"},
         ],
